@@ -11,7 +11,9 @@ import itertools
 import multiprocessing
 from hypothesis import strategies as st
 
-from ..runner import Failure, Result, HarnessError, run_hypothesis, digest
+from ..runner import Failure, Result, HarnessError, run_hypothesis, digest, exc_signature
+import numpy as np
+import networkx as nx
 from .. import forkrng, oracles, steplaw, gen, mc
 
 ID = 'C01'
@@ -355,7 +357,40 @@ def behavioural_weighted(ctx, sub, quick):
     run_exhaustive(ctx, sub, cases, 'eonverif.props.c01', 'tree_prop_weighted')
 
 
+def skew_cases(seed, quick):
+    for k, L in enumerate((3000, 30000) if quick else (3000, 30000, 100000)):
+        yield {'leaves': L, 'seed': seed * 31 + k, 'sim': 'Gillespie_SIR'}
+        yield {'leaves': L, 'seed': seed * 37 + k, 'sim': 'Gillespie_SIS'}
+
+
+def prop_skew(case):
+    """a hub with L susceptible leaves, one edge of weight 1e6 and L-1 of weight 1e-9: the first transmission goes along the heavy edge
+    with probability > 1 - L*1e-15; thousands of consecutive rejections are the normal case here (iteration caps, fallbacks)"""
+    import random
+    import EoN
+    L = case['leaves']
+    G = nx.star_graph(L)
+    R = random.Random(case['seed'])
+    heavy = 1 + R.randrange(L)
+    for u, v, d in G.edges(data=True):
+        d['w'] = 1.0e6 if heavy in (u, v) else 1.0e-9
+    random.seed(case['seed']); np.random.seed(case['seed'] % 2 ** 32)
+    fails = []
+    try:
+        kw = dict(initial_infecteds=[0], transmission_weight='w', tmax=1e-3, return_full_data=True)
+        out = getattr(EoN, case['sim'])(G, 1.0, 0.0, **kw)
+        changed = sorted((out.node_history(u)[0][1], u) for u in G if u != 0 and len(out.node_history(u)[0]) > 1)
+        if not changed or changed[0][1] != heavy:
+            fails.append(Failure('%s:skewed-weights:wrong-first-transmission' % case['sim'],
+                                 'star with %d leaves, edge to leaf %d has weight 1e6, the others 1e-9: first infected leaves %r' % (L, heavy, [u for _t, u in changed[:3]])))
+    except Exception as e:
+        fails.append(Failure('%s:skewed-weights:exception:%s' % (case['sim'], exc_signature(e)), 'raised %r' % (e,)))
+    return Result(fails, nontrivial=True, classes=['skew:%d' % L])
+
+
 def replay(ctx, sub, case):
+    if sub == 'skew':
+        return prop_skew(case).failures
     if sub.startswith('mc'):
         return mc.replay_mc(ctx, case, 64000)
     if sub == 'tree-weighted':
@@ -382,6 +417,9 @@ def run(ctx):
         ctx.exhaustive = False
     if not only or 'tree-weighted' in only:
         behavioural_weighted(ctx, 'tree-weighted', quick)        # many distinct weights, zero-weight nodes and edges
+    if not only or 'skew' in only:
+        from ..runner import run_cases
+        run_cases(ctx, 'skew', [c for c in skew_cases(ctx.seed, quick) if c['sim'] == 'Gillespie_SIR'], prop_skew, case_timeout=600)
     if not only or 'walk' in only:
         run_hypothesis(ctx, 'walk', walk_case(), prop_walk, 800 if quick else 5000)
     if not only or 'mc' in only:
